@@ -393,7 +393,7 @@ func (g G) planC01() *Plan {
 			p.Steps = append(p.Steps, Step{K: "send", Msg: g.drawSSO(lab+".sso", &p.World, g.intn(lab+".sp", len(p.World.SPs)))})
 		case 1:
 			m := &MsgSpec{Kind: "callback", Session: g.intn(lab+".sess", 8), Replica: g.intn(lab+".rep", 2),
-				IDMode: g.pick(lab+".idmode", "session", "session", "session", "session", "unknown", "empty", "huge", "literal"),
+				IDMode:  g.pick(lab+".idmode", "session", "session", "session", "session", "unknown", "empty", "huge", "literal"),
 				IDPlace: g.pick(lab+".place", "query", "query", "form", "both", "form-other-query")}
 			if m.IDMode == "literal" {
 				m.IDLit = g.pick(lab+".idlit", "ar0-", "ar0-000000000000", " ", "%00", "ar0-000000000000&id=x", "../ar0", "ar1-x' OR '1'='1")
@@ -436,6 +436,10 @@ func drawPlan(t *rapid.T, prop, family string) *Plan {
 	switch prop {
 	case "C01":
 		p = g.planC01()
+	case "C08":
+		p = g.planC08()
+	case "C10":
+		p = g.planC10()
 	default:
 		p = g.planC01()
 		p.Property = prop
